@@ -79,6 +79,50 @@ bool read_next_or_end(basic_staj_cursor<CharT>& cursor, std::error_code& ec)
     return (cursor.current().event_type() == staj_events::end_object) ? true : false; 
 }
 
+// The cursor is on a key that matches no (remaining) member: skip that member's whole value, nested containers
+// included, and move on. Returns true at the end of the object; otherwise the cursor is on the next key and
+// `key` holds its name.
+template <typename CharT>
+bool skip_member_or_end(basic_staj_cursor<CharT>& cursor, basic_string_view<CharT>& key, std::error_code& ec)
+{
+    cursor.next(ec); // the value
+    if (ec)
+    {
+        return true;
+    }
+    std::size_t depth = 0;
+    do
+    {
+        switch (cursor.current().event_type())
+        {
+            case staj_events::begin_object:
+            case staj_events::begin_array:
+                ++depth;
+                break;
+            case staj_events::end_object:
+            case staj_events::end_array:
+                --depth;
+                break;
+            default:
+                break;
+        }
+        if (depth > 0)
+        {
+            cursor.next(ec);
+            if (ec)
+            {
+                return true;
+            }
+        }
+    } while (depth > 0);
+    if (read_next_or_end(cursor, ec))
+    {
+        return true;
+    }
+    key = get_key(cursor, ec);
+    return false;
+}
+
 template <std::size_t N>
 std::size_t find_first_not_set(const std::bitset<N>& indices)
 {
@@ -462,7 +506,7 @@ is_optional_value_set(const T&)
 #define JSONCONS_ALL_MEMBER_DECODE(Prefix, P2,P3,Member, Count) JSONCONS_ALL_MEMBER_DECODE_LAST(Prefix, P2,P3,Member, Count)
 #define JSONCONS_ALL_MEMBER_DECODE_LAST(Prefix, P2,P3,Member, Count) \
     if (count++ >= num_params) { \
-        is_end = read_next_or_end(cursor, ec); \
+        is_end = skip_member_or_end(cursor, key, ec); \
         if (ec) \
         { \
             return result_type{jsoncons::unexpect, ec, cursor.line(), cursor.column()}; \
@@ -475,6 +519,7 @@ is_optional_value_set(const T&)
             } \
             return result_type{std::move(val)}; \
         } \
+        count = 0; \
     } \
     else if (!indices[num_params-Count] && key == object_names<value_type,char_type>::name(num_params-Count)) { \
         cursor.next(ec); \
@@ -512,7 +557,7 @@ is_optional_value_set(const T&)
 #define JSONCONS_N_MEMBER_DECODE(Prefix, P2,P3,Member, Count) JSONCONS_N_MEMBER_DECODE_LAST(Prefix, P2,P3,Member, Count)
 #define JSONCONS_N_MEMBER_DECODE_LAST(Prefix, P2,P3,Member, Count) \
     if (count++ >= num_params) { \
-        is_end = read_next_or_end(cursor, ec); \
+        is_end = skip_member_or_end(cursor, key, ec); \
         if (ec) \
         { \
             return result_type{jsoncons::unexpect, ec, cursor.line(), cursor.column()}; \
@@ -526,6 +571,7 @@ is_optional_value_set(const T&)
             } \
             return result_type{std::move(val)}; \
         } \
+        count = 0; \
     } \
     else if (!indices[num_params-Count] && key == object_names<value_type,char_type>::name(num_params-Count)) { \
         cursor.next(ec); \
@@ -852,7 +898,7 @@ else \
 #define JSONCONS_N_MEMBER_NAME_DECODE_6(Member, Name, Mode, Match, Into, From) JSONCONS_N_MEMBER_NAME_DECODE_7(Member, Name, Mode, Match, Into, From)
 #define JSONCONS_N_MEMBER_NAME_DECODE_7(Member, Name, Mode, Match, Into, From) \
     if (count++ >= num_params) { \
-        is_end = read_next_or_end(cursor, ec); \
+        is_end = skip_member_or_end(cursor, key, ec); \
         if (ec) \
         { \
             return result_type{jsoncons::unexpect, ec, cursor.line(), cursor.column()}; \
@@ -866,6 +912,7 @@ else \
             } \
             return result_type{std::move(val)}; \
         } \
+        count = 0; \
     } \
     else if (!indices[index] && key == Name) { \
         cursor.next(ec); \
@@ -938,7 +985,7 @@ else \
 #define JSONCONS_ALL_MEMBER_NAME_DECODE_6(Member, Name, Mode, Match, Into, From) JSONCONS_ALL_MEMBER_NAME_DECODE_7(Member, Name, Mode, Match, Into, From)
 #define JSONCONS_ALL_MEMBER_NAME_DECODE_7(Member, Name, Mode, Match, Into, From) \
    if (count++ >= num_params) { \
-       is_end = read_next_or_end(cursor, ec); \
+       is_end = skip_member_or_end(cursor, key, ec); \
        if (ec) \
        { \
            return result_type{jsoncons::unexpect, ec, cursor.line(), cursor.column()}; \
@@ -952,6 +999,7 @@ else \
            } \
            return result_type{std::move(val)}; \
        } \
+       count = 0; \
    } \
    else if (!indices[index] && key == Name) { \
        cursor.next(ec); \
